@@ -30,6 +30,14 @@ CHECKS = {
                 text="Bounded exhaustive enumeration of algebraic laws: all ordered pairs of a 331-ID lattice (symmetry, identity, unsigned order, bit length, bucket index == shared prefix length against math/big and a bit loop), all bit positions for GetBit/SetBit, random IDs for all 160 buckets x 3 roots, closer-than over a 24-candidate universe x 4 targets (all pairs and all 13824 triples: irreflexive, antisymmetric, total, transitive, known-before-unknown, distance-monotone), every push sequence of length <= 6 over 6 elements into the K-nearest container (K=1..3) and every add/delete sequence of length <= 5 over 5 elements into the sorted candidate set against a sorted-slice reference.",
                 note="IDs outside the lattice and longer sequences are not covered; equal-distance ties may be retained either way (maphash tie-break is not observed)",
                 ref="DESIGN.md 5/C18"),
+    "C08": dict(level="model_checking", technique=E1 + "; oracle = reference responder on generically decoded datagrams",
+                text="Every (method x argument shape x transaction-id form x source form x configuration) single query, every non-query message (matched to a pending query or not), and all ordered pairs of 12 representative queries delivered concurrently and in sequence are executed on the real Server; the multiset of datagrams written in reaction is compared with a reference responder: destination = source, t byte-identical, exactly one r/e where the property demands one (203 for missing arguments, 204 for unknown methods), own id and the requester's compact address in ip, silence when passive/vetoed/out of budget and for every non-query.",
+                note="malformed (undecodable) queries are only required to produce at most one correctly addressed reaction; send budget is modelled only as a one-token limiter here (C20 covers budgets)",
+                ref="DESIGN.md 5/C08"),
+    "C10": dict(level="model_checking", technique=E1 + " with exact virtual time (fake clock starts on a token-rotation boundary)",
+                text="Grid of issue offsets within the rotation x use delays around 10 and 15 minutes (nanosecond-exact) x users (same address, other port, v4-mapped) x {announce_peer, immutable put, mutable put} x token source {get_peers, get}; 186 token mutations (all single-bit flips, truncations, extensions, empty, absent, second server's token, token issued to another IP); foreign IPs with the exact token. Recording peer store, BEP 44 store and announce callback observe effects. Accept <= 10 min and reject > 15 min are demanded, 10-15 min is free, reply <=> effect.",
+                note="the server secret is random per instance; oracles never depend on token bytes, only on who was issued what and when",
+                ref="DESIGN.md 5/C10"),
 }
 
 NOT_YET = {}
